@@ -93,7 +93,25 @@ func (r *rewriter) Visit(n ast.Node) ast.Visitor {
 	case *ast.ForStmt:
 		x.Cond = wrapCond(r.fset, x.Cond)
 		r.changed = true
+	case *ast.BinaryExpr:
+		// short-circuit evaluation: the left operand decides whether the right one runs at all
+		if x.Op == token.LAND || x.Op == token.LOR {
+			x.X = call("B", newSite(r.fset, x.X.Pos(), "shortcircuit"), x.X)
+			r.changed = true
+		}
 	case *ast.SwitchStmt:
+		if x.Tag != nil && x.Init == nil && !isLiteral(x.Tag) {
+			// a tagged switch branches on the tag's value:
+			//   switch tag { ... }  ->  switch verifT := tag; verifobs.Seen(site, verifT) { default: switch verifT { ... } }
+			// (no generics: the module's language version is go1.17; `default` keeps terminating-statement analysis intact)
+			inner := &ast.SwitchStmt{Tag: ast.NewIdent("verifT"), Body: x.Body}
+			x.Init = &ast.AssignStmt{Lhs: []ast.Expr{ast.NewIdent("verifT")}, Tok: token.DEFINE, Rhs: []ast.Expr{x.Tag}}
+			x.Tag = call("Seen", newSite(r.fset, x.Tag.Pos(), "switchtag"), ast.NewIdent("verifT"))
+			x.Body = &ast.BlockStmt{List: []ast.Stmt{&ast.CaseClause{List: nil, Body: []ast.Stmt{inner}}}}
+			r.changed = true
+			ast.Walk(r, inner.Body)
+			return nil
+		}
 		if x.Tag == nil {
 			for _, c := range x.Body.List {
 				cc := c.(*ast.CaseClause)
